@@ -63,6 +63,7 @@ pub fn options(rng: &mut Rng, extreme: bool) -> Vec<String> {
     }
     if rng.chance(0.15) { a.push("--downlink-log=/dev/null".into()); }
     if rng.chance(0.2) { a.push(format!("--log-messages={}", rng.pick(&[17u32, 4, 20, 11, 0]))); }
+    if rng.chance(0.1) { a.push(format!("--error-log={}", rng.pick(&["/dev/null", "/dev/full"]))); }
     a
 }
 
